@@ -346,3 +346,9 @@ CHECKS['C11']['text'] += (
     "waits while a customer of strictly larger priority number holds a server, nobody waits while a server is idle, queue index = priority, in the executable scope inv_scope (no capacities; priority pre-emption only at fixed-server nodes, not reroute; no pre-emptive "
     "Schedules / capacitated slots) - INCLUDING class change while waiting, class-change matrices, reneging, all routers, LIFO / SIRO; noinv_refuted_preemptive_schedule and noinv_refuted_overtime are closed witnesses of the two NEW open findings F-11c and F-11d "
     "(found by this proof, reproduced on the real engine, corpus), noinv_refuted_blocked_class_change of the F-02a family.")
+CHECKS['C03']['text'] += (
+    " Journey2s.v (3 070 lines) extends the stage-2 journey theorems to pre-emptive Schedules (resume / restart / resample; no capacities then): event_step_jrn2s / engine_journey2s / Jrn2s_means / Jrn2s_int_means (interrupted customers stay in their queue, "
+    "their interruption record continues the visit, the restart writes no record); pre-emptive capacitated slots and the reroute option are not covered. The real-history check (dispatch 40) uses this wider scope.")
+CHECKS['C17']['text'] += (
+    " TrackerMB.v (1 370 lines) completes it with MatrixBlocking: run_many_mb / mb_means / mb_never_negative - with a ghost global order `ord` of the currently blocked customers (each blocked queue is the sub-sequence of ord towards that node), Python's update "
+    "(push increment, pop element 0 of the cell, shift every larger number down) folded over the calls of any run gives exactly the matrix of positions in ord, the numbers in the cells are 1..increment-1 without gap or repetition.")
